@@ -10,10 +10,13 @@ package wb
 
 import (
 	"bufio"
+	"context"
 	"encoding/binary"
 	"errors"
 	"flag"
 	"fmt"
+	"io"
+	"net/http"
 	"os"
 	"runtime"
 	"sort"
@@ -208,6 +211,10 @@ func (w *world) taskFn(i int) func() {
 			// dereferences it (printing it with %v is safe, calling Error() is not)
 			var e *nilDerefErr
 			panic(error(e))
+		case 9, 10, 11, 12, 13, 14:
+			// well-known error values of the standard library, bare or wrapped: what a task
+			// that gives up on a cancelled context, a closed file or an aborted request panics with
+			panic(sentinelPanic(i, sp.panicK))
 		case 4:
 			// panic(nil) with the pre-go1.21 semantics golib's own go.mod (go 1.18) selects:
 			// recover() returns nil.  It is a panic by any reading, so it must neither kill
@@ -217,7 +224,26 @@ func (w *world) taskFn(i int) func() {
 	}
 }
 
+func sentinelPanic(i, k int) error {
+	switch k {
+	case 9:
+		return context.Canceled
+	case 10:
+		return fmt.Errorf("task %d: fetch: %w", i, context.DeadlineExceeded)
+	case 11:
+		return io.EOF
+	case 12:
+		return fmt.Errorf("task %d: read: %w", i, io.ErrUnexpectedEOF)
+	case 13:
+		return http.ErrAbortHandler
+	}
+	return fmt.Errorf("task %d: open: %w", i, os.ErrNotExist)
+}
+
 func panicText(i, k int) string {
+	if k >= 9 && k <= 14 {
+		return fmt.Sprint(sentinelPanic(i, k))
+	}
 	switch k {
 	case 1:
 		return fmt.Sprintf("task %d failed", i)
@@ -756,6 +782,9 @@ func gen(r *sim.Rng, tier string) *sim.Case {
 		t := sim.Op{Op: "Task", K: r.N(3)}
 		if r.Pct(panicPct) {
 			t.V = r.Range(1, 8)
+			if r.Pct(25) {
+				t.V = r.Range(9, 14) // well-known sentinel errors, bare or wrapped
+			}
 		}
 		if r.Pct(blockPct) {
 			t.D = r.Range(1, 2)
